@@ -138,6 +138,12 @@ fn run_case_on_current_build(case: &Case, st: &mut Stats) -> CaseResult {
         None
     };
     st.flag("wmc.one_weight_with_26_significant_bits", fine.is_some());
+    // a fifth of the other cases: every listed pair is scaled by a power of two of its own (2^-20, 2^-30 or 2^-40, the
+    // same for low and high), so that every model's product carries the same total scale and the sum stays exact
+    // while the products are far below 1e-16
+    let tiny = fine.is_none() && case.seps.get(3).map(|b| b % 5 == 0).unwrap_or(false);
+    let scale = |i: usize| -> f64 { if tiny { (0.5f64).powi(20 + 10 * (i % 3) as i32) } else { 1.0 } };
+    st.flag("wmc.weights_scaled_by_2^-20..2^-40", tiny);
     let coarse = |l: u8, h: u8| -> (f64, f64) {
         if case.normalised {
             (1.0 - (h % 5) as f64 / 4.0, (h % 5) as f64 / 4.0)
@@ -166,6 +172,7 @@ fn run_case_on_current_build(case: &Case, st: &mut Stats) -> CaseResult {
             } else {
                 ((*l % 41) as f64 / 8.0, (*h % 41) as f64 / 8.0)
             };
+            let (l, h) = (l * scale(i), h * scale(i));
             w[i] = (l, h);
             wobj.insert(nm.clone(), json!({"low": l, "high": h}));
         }
@@ -185,6 +192,7 @@ fn run_case_on_current_build(case: &Case, st: &mut Stats) -> CaseResult {
         } else {
             ((*l % 41) as f64 / 8.0, (*h % 41) as f64 / 8.0)
         };
+        let (l, h) = (l * scale(extras.len() + 1), h * scale(extras.len() + 1));
         wobj.insert(nm.clone(), json!({"low": l, "high": h}));
         extras.push((nm, l, h));
     }
@@ -248,8 +256,9 @@ fn run_case_on_current_build(case: &Case, st: &mut Stats) -> CaseResult {
     // with the 26-bit weight the decimal text of the weights file has 16-17 significant digits, which a JSON reader
     // may round to a neighbouring double: there the count is compared within a relative 1e-12 (single precision
     // would be off by 1e-8); everywhere else every value is a short dyadic number and the comparison is exact
-    let weighted_ok = match (weighted, fine) {
-        (Some(got), Some(_)) => (got - want_w).abs() <= 1e-12 * want_w.abs(),
+    // (the scaled weights have long decimal texts as well: same tolerance there)
+    let weighted_ok = match (weighted, fine.is_some() || tiny) {
+        (Some(got), true) => (got - want_w).abs() <= 1e-12 * want_w.abs(),
         (got, _) => got == Some(want_w),
     };
     ensure!(
